@@ -498,8 +498,10 @@ def avoid_dead_links(root, machine, wrap_around=False):
                 # of the A* path.
                 new_node = lookup[(x, y)]
 
-                # Find the node's current parent and disconnect it.
-                for node in lookup[child]:  # pragma: no branch
+                # Find the node's current parent and disconnect it. (Search all
+                # nodes: the parent may itself already have been severed from
+                # the disconnected tree earlier along this path.)
+                for node in lookup.values():  # pragma: no branch
                     dn = [(d, n) for d, n in node.children if n == new_node]
                     assert len(dn) <= 1
                     if dn:
